@@ -476,6 +476,27 @@ def D51():
     res = a.setup_optim_problem({'price': np.array([-10.] * 6 + [10.] * 2)}, timegrid=tg).optimize()
     return 'plant off, start ramp [2, 3], ramp 1, negative prices: dispatch %s' % np.round(res.x[:8], 1)
 
+@witness
+def D52():
+    tg = A.Timegrid(dt.date(2021, 1, 4), dt.date(2021, 2, 1), freq='d')
+    a = A.SimpleContract(name='a', nodes=N1, min_cap=-1., max_cap=1., price='p', freq='2d', periodicity='W')
+    op = a.setup_optim_problem({'p': np.arange(tg.T) * 1.}, tg)
+    return "SimpleContract(freq='2d', periodicity='W') on a daily grid: %d variables, mapping labels %d .. %d" % (len(op.c), op.mapping.index.min(), op.mapping.index.max())
+
+@witness
+def D53():
+    import eaopack as eao
+    from copy import deepcopy
+    tg = A.Timegrid(dt.date(2021, 1, 1), dt.date(2021, 1, 3), freq='12h')
+    src = A.SimpleContract(name='src', nodes=N1, min_cap=0., max_cap=1.)
+    mkt = A.SimpleContract(name='mkt', nodes=N1, price='p', min_cap=-1., max_cap=0., freq='d')
+    portf = eao.portfolio.Portfolio([src, mkt])
+    sc = [{'p': np.array([1., 100., 1., 1.])}, {'p': np.array([1., 0., 1., 1.])}]
+    ops = [portf.setup_optim_problem(s, tg) for s in sc]
+    vals = [o.optimize().value for o in ops]
+    slp = eao.stoch_lin_prog.make_slp(deepcopy(ops[0]), portf, tg, dt.datetime(2021, 1, 1, 12), [sc[1]])
+    return 'per-scenario optima %s (mean %.0f), SLP optimum %.0f' % (np.round(vals, 0), np.mean(vals), slp.optimize().value)
+
 if __name__ == '__main__':
     which = sys.argv[1:] or list(W)
     for k in which:
